@@ -49,14 +49,15 @@ Definition qclose30 (a b : Q) : bool := Qleb (Qabs (a - b)) (tol30 * Qabs b) || 
    rows the harness cut the patch into (radius_all of a concatenation is the maximum of the radius_all of the parts:
    Props/C13.v C13_radius_chunks) and the separation of every row placed on purpose; all computed by the harness from the
    positions it handed over.  [dcen]: separation of the stored centre from the centre it has to be (the given one, or the
-   weighted mean of ALL rows), [rcen] the scale it is compared on.
+   weighted mean of ALL rows), [cmax] the separation allowed for it (given centre: 2^-40 rad, the stored numbers are the
+   given ones; mean of up to 10^6 rows summed in float64: 2^-20 of the radius).
    flags: radius = maximum over all rows;  radius covers every row;  number of rows and sum of weights exact;  centre *)
-Definition c13_meta_case (radius : Q) (seps : list Q) (nrec nrec_def : Q) (sumw sumw_def : Q) (dcen rcen : Q) : nat :=
+Definition c13_meta_case (radius : Q) (seps : list Q) (nrec nrec_def : Q) (sumw sumw_def : Q) (dcen cmax : Q) : nat :=
   let r := qmax_list seps in
   code [ qclose30 radius r;
          forallb (fun d => Qleb d (radius * (1 + tol30))) seps;
          Qeqb nrec nrec_def && Qeqb sumw sumw_def;
-         Qleb dcen (tol30 * rcen) ].
+         Qleb dcen cmax ].
 
 (* the patch pairs the implementation links against the ones that have to be linked.
    [need]: rows (i, j, d_ij, R_i, R_j) for the patch pairs that hold a counted pair (found by brute force); R = the radii over
